@@ -437,7 +437,27 @@ def load_polys(fmt, specs, tmp):
 # ---------------------------------------------------------------------------------------------
 # checks (shared by the explorer and by replay)
 # ---------------------------------------------------------------------------------------------
-def _membership(entry, caps, use, ncapsarg, fmt, pts, decs, ctor=None):
+POINT_LAYOUTS = ['be', 'strided', 'fortran', 'readonly']      # same float64 numbers in another memory layout
+
+
+def relayout(a, layout):
+    a = np.asarray(a, dtype=np.float64)
+    if layout == 'be':
+        return a.astype('>f8')
+    if layout == 'strided':
+        b = np.zeros((a.shape[0], 2 * a.shape[1]))
+        b[:, ::2] = a
+        return b[:, ::2]
+    if layout == 'fortran':
+        return np.asfortranarray(a)
+    if layout == 'readonly':
+        b = a.copy()
+        b.setflags(write=False)
+        return b
+    return a
+
+
+def _membership(entry, caps, use, ncapsarg, fmt, pts, decs, ctor=None, playout=None):
     """One call of is_in_cap / is_in_polygon.  decs[i] = (decision, dot) of cap i on pts.
     -> (list of (sig, msg, point index), expected int8 array)."""
     import pydl.pydlutils.mangle as mng
@@ -447,6 +467,25 @@ def _membership(entry, caps, use, ncapsarg, fmt, pts, decs, ctor=None):
     else:
         used = used_indices(len(caps), use, ncapsarg)
     exp = and3([decs[i] for i in used], npts)
+    if playout:
+        v, _e = _membership(entry, caps, use, ncapsarg, fmt, pts, decs, ctor)
+        cpts = relayout(pts, playout)
+        try:
+            if entry == 'is_in_cap':
+                got = mng.is_in_cap(np.array(caps[0][:3], dtype=np.float64), float(caps[0][3]), cpts)
+            else:
+                got = mng.is_in_polygon(make_polygon({'caps': caps, 'use': use, 'ctor': ctor}), cpts, ncaps=ncapsarg)
+        except Exception as e:  # noqa: BLE001
+            return v + [('%s:exception:%s:point-layout=%s' % (entry, type(e).__name__, playout), repr(e), 0)], exp
+        got = np.asarray(got)
+        bad = np.nonzero((exp >= 0) & (got != (exp == 1)))[0] if got.shape == (npts,) else np.array([0])
+        if len(bad) and not v:
+            k = int(bad[0])
+            v = v + [('%s:membership:point-layout=%s' % (entry, playout),
+                      'point %s (%s) handed over as a %s array gives a different answer' % (pts[k].tolist(), fmt, playout), k)]
+        if not np.array_equal(np.asarray(cpts, dtype=np.float64), pts):
+            v = v + [('%s:points-modified:point-layout=%s' % (entry, playout), 'caller array changed', 0)]
+        return v, exp
     try:
         if entry == 'is_in_cap':
             got = mng.is_in_cap(np.array(caps[0][:3], dtype=np.float64), float(caps[0][3]), pts)
@@ -617,7 +656,8 @@ def check_case(case):
             if not ok:
                 raise ValueError('not an exact-boundary case')
             decs = [(np.ones(len(pts), dtype=np.int8), np.zeros(len(pts)), 1.0) for _c in caps]
-        v, _exp = _membership(entry, caps, case.get('use', 1), case.get('ncaps', 0), fmt, pts, decs, case.get('ctor'))
+        v, _exp = _membership(entry, caps, case.get('use', 1), case.get('ncaps', 0), fmt, pts, decs, case.get('ctor'),
+                              case.get('playout'))
         if case.get('exact'):
             v = [(s.replace(':membership', ':membership:exact-boundary'), m, k) for s, m, k in v]
         return [(s, m) for s, m, _k in v]
@@ -720,10 +760,10 @@ def _emit(acc, keyd, nontrivial, ok_label, viols, mk_case):
         acc.violation(sig, mk_case(k), msg)
 
 
-def _run_membership(acc, entry, layer, capids, caps, use, ncapsarg, fmt, ctor=None, alpha='std'):
+def _run_membership(acc, entry, layer, capids, caps, use, ncapsarg, fmt, ctor=None, alpha='std', playout=None):
     pts = std_points(fmt)
     decs = [std_decision(ALPHAS[alpha][c][0] if layer == 'poly' else c[0], caps[i][3], fmt) for i, c in enumerate(capids)]
-    v, exp = _membership(entry, caps, use, ncapsarg, fmt, pts, decs, ctor)
+    v, exp = _membership(entry, caps, use, ncapsarg, fmt, pts, decs, ctor, playout)
     nin, nout, nb = int((exp == 1).sum()), int((exp == 0).sum()), int((exp == -1).sum())
     if nb:
         acc.skip('point-within-1e-12-of-a-cap-boundary', nb)
@@ -731,12 +771,17 @@ def _run_membership(acc, entry, layer, capids, caps, use, ncapsarg, fmt, ctor=No
     keyd = {'layer': layer, 'caps': capids, 'use': use, 'ncaps': ncapsarg, 'fmt': fmt, 'ctor': ctor}
     if alpha != 'std':
         keyd['alpha'] = alpha
+    if playout:
+        keyd['playout'] = playout
     label = 'ok:%s:%s' % (entry, 'in+out' if nin and nout else ('all-in' if nin else 'all-out'))
 
     def mk(k):
         c = {'layer': layer, 'caps': caps, 'use': use, 'ncaps': ncapsarg, 'fmt': fmt, 'pts': [pts[k].tolist()]}
         if ctor:
             c['ctor'] = ctor
+        if playout:
+            c['playout'] = playout
+            c['pts'] = pts[max(0, k - 1):k + 2].tolist()
         return c
     _emit(acc, keyd, bool(nin and nout), label, v, mk)
 
@@ -761,6 +806,15 @@ def run_small(acc):
             _emit(acc, {'layer': layer, 'exact-boundary': n}, True, 'ok:%s:exact-boundary-inside' % entry, viol,
                   lambda k, layer=layer, pts=pts, caps=caps: {'layer': layer, 'caps': caps, 'use': 1, 'ncaps': 0,
                                                               'fmt': 'xyz', 'pts': [pts[k].tolist()], 'exact': True})
+    # the point array in other memory layouts (big-endian as read from FITS, strided view, Fortran order, read-only)
+    for playout in POINT_LAYOUTS:
+        for fmt in ('xyz', 'radec'):
+            for a in range(10):
+                c = cap_of(a)
+                _run_membership(acc, 'is_in_cap', 'cap', [POLY_CAPS[a]], [c], 1, 0, fmt, playout=playout)
+                _run_membership(acc, 'is_in_polygon', 'poly', [a], [c], 1, 0, fmt, playout=playout)
+            _run_membership(acc, 'is_in_polygon', 'poly', [0, 1, 2], [cap_of(0), cap_of(1), cap_of(2)], 5, 0, fmt,
+                            playout=playout)
     # polygons without caps and with one cap
     for fmt in ('xyz', 'radec'):
         for ctor in ('empty', 'kw0'):
